@@ -833,6 +833,11 @@ def pattern_const_f32(context, tree):
 @isa.pattern("stm", "CJMPI8(reg, reg)", size=4)
 def pattern_cjmpi(context, tree, c0, c1):
     op, yes_label, no_label = tree.value
+    bits = {"CJMPI8": 8, "CJMPI16": 16}.get(tree.name)
+    if bits:
+        # The bits above a narrow value are unspecified: compare the values
+        c0 = extend_to_32(context, c0, bits, True)
+        c1 = extend_to_32(context, c1, bits, True)
     opnames = {"<": Blt, ">": Bgt, "==": Beq, "!=": Bne, ">=": Bge, "<=": Ble}
     Bop = opnames[op]
     jmp_ins = B(no_label.name, jumps=[no_label])
@@ -845,6 +850,10 @@ def pattern_cjmpi(context, tree, c0, c1):
 @isa.pattern("stm", "CJMPU32(reg, reg)", size=4)
 def pattern_cjmpu(context, tree, c0, c1):
     op, yes_label, no_label = tree.value
+    bits = {"CJMPU8": 8, "CJMPU16": 16}.get(tree.name)
+    if bits:
+        c0 = extend_to_32(context, c0, bits, False)
+        c1 = extend_to_32(context, c1, bits, False)
     opnames = {
         "<": Bltu,
         ">": Bgtu,
@@ -1230,6 +1239,9 @@ def pattern_or_i32_const_reg(context, tree, c0):
 @isa.pattern("reg", "SHRU32(reg, reg)", size=2)
 def pattern_shr_u32(context, tree, c0, c1):
     d = context.new_reg(RiscvRegister)
+    bits = {"SHRU8": 8, "SHRU16": 16}.get(tree.name)
+    if bits:
+        c0 = extend_to_32(context, c0, bits, False)
     context.emit(Srl(d, c0, c1))
     return d
 
@@ -1324,6 +1336,10 @@ def pattern_div_i32(context, tree, c0, c1):
 @isa.pattern("reg", "DIVU32(reg, reg)", size=10)
 def pattern_div_u32(context, tree, c0, c1):
     d = context.new_reg(RiscvRegister)
+    bits = {"DIVU8": 8, "DIVU16": 16}.get(tree.name)
+    if bits:
+        c0 = extend_to_32(context, c0, bits, False)
+        c1 = extend_to_32(context, c1, bits, False)
     context.emit(Divu(d, c0, c1))
     return d
 
@@ -1339,6 +1355,10 @@ def pattern_rem_i32(context, tree, c0, c1):
 @isa.pattern("reg", "REMU32(reg, reg)", size=10)
 def pattern_rem_u32(context, tree, c0, c1):
     d = context.new_reg(RiscvRegister)
+    bits = {"REMU8": 8, "REMU16": 16}.get(tree.name)
+    if bits:
+        c0 = extend_to_32(context, c0, bits, False)
+        c1 = extend_to_32(context, c1, bits, False)
     context.emit(Remu(d, c0, c1))
     return d
 
